@@ -262,6 +262,7 @@ type VC struct {
 	inCommute   bool            // inside the hypothetical iterations of a commute obligation
 	pureDecl    map[string]bool
 	resolveDepth int
+	timeSort    *Sort // sort of time.Time once timedec has been declared
 	commuteKeys map[string][]Val // "@loopN." -> the two keys of that loop's commute obligations (key1/key2 in a finding's class)
 	commuteKeyT map[string]types.Type
 	forcedKey   map[string]Term // map iterator -> key the next range step must yield (commute.go)
